@@ -2,5 +2,6 @@
 pub mod l2;
 pub mod l2props;
 pub mod l3;
+pub mod l4;
 pub mod props;
 pub mod rt;
